@@ -108,17 +108,13 @@ func c28EachItem(rc *RC) {
 	m := encoding.NewUint64Map(out.Bytes())
 
 	var err error
-	returned := false
-	rc.Sim(target, false, nil, 0, func() {
+	rc.Sim(target, func() {
 		err = m.EachItem(func(id uint64, tagged []encoding.Tagged, goroutine int) error {
 			return plan.call()
 		}, goroutines)
-		returned = true
 	})
-	if rc.Failed() {
-		return
-	}
-	checkStreamOutcome(rc, target, plan, n, returned, err)
+	// (a call that never returns ends the run as a deadlock, class target+"/deadlock")
+	checkStreamOutcome(rc, target, plan, n, true, err)
 }
 
 // checkStreamOutcome is the oracle shared by all C28 targets.
